@@ -206,6 +206,9 @@ func (c *Ctx) eval(env *Env, e ast.Expr) Val {
 			return c.sel(c.sel(h, s.ID), addInt(s.Off, i))
 		case SeqV:
 			return c.sel(s.Arr, addInt(s.Off, i))
+		case ArrPtr:
+			h := c.heap(env.st, "H."+string(s.Elem), heapSort(s.Elem))
+			return c.sel(c.sel(h, s.ID), i)
 		case T:
 			if s.K.isArr() {
 				return c.sel(s, i)
@@ -228,6 +231,26 @@ func fnName(env *Env) string {
 }
 
 func (c *Ctx) refEq(l, r Val) T {
+	// comparison with the literal nil
+	isNil := func(v Val) bool {
+		iv, ok := v.(IfaceV)
+		return ok && iv.Ref.S == "0" && iv.Typ == nil && iv.Conc == nil
+	}
+	if isNil(r) {
+		l, r = r, l
+	}
+	if isNil(l) {
+		switch b := r.(type) {
+		case SliceV:
+			return eq(b.ID, intLit(0))
+		case StructPtr:
+			return eq(b.Ref, intLit(0))
+		case IfaceV:
+			return eq(b.Ref, intLit(0))
+		case ErrV:
+			return b.Nil
+		}
+	}
 	switch a := l.(type) {
 	case IfaceV:
 		if b, ok := r.(IfaceV); ok {
@@ -240,6 +263,10 @@ func (c *Ctx) refEq(l, r Val) T {
 	case SliceV:
 		if b, ok := r.(SliceV); ok {
 			return and(eq(a.ID, b.ID), eq(a.Off, b.Off), eq(a.Len, b.Len))
+		}
+	case ArrPtr:
+		if b, ok := r.(ArrPtr); ok {
+			return eq(a.ID, b.ID)
 		}
 	case ErrV:
 		if b, ok := r.(ErrV); ok {
@@ -290,6 +317,14 @@ func (c *Ctx) evalSelector(env *Env, x *ast.SelectorExpr) Val {
 		}
 		if x.Sel.Name == "ref" {
 			return v.Ref
+		}
+	case ArrPtr:
+		switch x.Sel.Name {
+		case "id":
+			return v.ID
+		case "buflen":
+			c.declareFun("cbuf_len", []Sort{SInt}, SInt)
+			return app(SInt, "cbuf_len", v.ID)
 		}
 	case SliceV:
 		switch x.Sel.Name {
@@ -376,6 +411,19 @@ func (c *Ctx) evalCall(env *Env, x *ast.CallExpr) Val {
 		body := c.evalBool(env.with(v.Name, bv), args[1])
 		c.inQuant--
 		return T{fmt.Sprintf("(forall ((%s Int)) %s)", bv.S, body.S), SBool}
+	case "forallai", "forallar":
+		v := args[0].(*ast.Ident)
+		c.nsym++
+		k := SInt
+		if id.Name == "forallar" {
+			k = SReal
+		}
+		a := T{fmt.Sprintf("q_%s_%d", v.Name, c.nsym), arrSort(k)}
+		l := T{fmt.Sprintf("q_%s_len_%d", v.Name, c.nsym), SInt}
+		c.inQuant++
+		body := c.evalBool(env.with(v.Name, SeqV{a, intLit(0), l}), args[1])
+		c.inQuant--
+		return T{fmt.Sprintf("(forall ((%s %s) (%s Int)) %s)", a.S, a.K, l.S, body.S), SBool}
 	case "forallr":
 		// forallr(x, P): universally quantified real
 		v := args[0].(*ast.Ident)
@@ -385,6 +433,46 @@ func (c *Ctx) evalCall(env *Env, x *ast.CallExpr) Val {
 		body := c.evalBool(env.with(v.Name, bv), args[1])
 		c.inQuant--
 		return T{fmt.Sprintf("(forall ((%s Real)) %s)", bv.S, body.S), SBool}
+	case "as":
+		// as(x, structName): the concrete struct behind an interface value
+		v := c.eval(env, args[0])
+		tn, ok := args[1].(*ast.Ident)
+		if !ok {
+			panic(vcErr("as: second argument must be a struct type name"))
+		}
+		var ref T
+		switch x := v.(type) {
+		case IfaceV:
+			ref = x.Ref
+		case StructPtr:
+			ref = x.Ref
+		default:
+			panic(vcErr("as: %T is not a reference", v))
+		}
+		var pkg *types.Package
+		if c.top != nil && c.top.Package() != nil {
+			pkg = c.top.Package().Pkg
+		}
+		if pkg == nil {
+			panic(vcErr("as: no package"))
+		}
+		obj := pkg.Scope().Lookup(tn.Name)
+		if obj == nil {
+			// a type of an imported package (e.g. data.ndfloat64 seen from cdata)
+			for _, imp := range pkg.Imports() {
+				if o := imp.Scope().Lookup(tn.Name); o != nil {
+					obj = o
+				}
+			}
+		}
+		if obj == nil {
+			panic(vcErr("as: unknown type %s", tn.Name))
+		}
+		st, ok := obj.Type().Underlying().(*types.Struct)
+		if !ok {
+			panic(vcErr("as: %s is not a struct", tn.Name))
+		}
+		return StructPtr{ref, typeKey(obj.Type()), st, obj.Type()}
 	case "ite":
 		cnd := c.evalBool(env, args[0])
 		return mergeVals(cnd, c.eval(env, args[1]), c.eval(env, args[2]))
@@ -545,11 +633,40 @@ func specSort(ty string) []Sort {
 	case "bool":
 		return []Sort{SBool}
 	case "[]int":
-		return []Sort{arrSort(SInt), SInt, SInt}
+		return []Sort{arrSort(SInt), SInt}
 	case "[]real", "[]float64":
-		return []Sort{arrSort(SReal), SInt, SInt}
+		return []Sort{arrSort(SReal), SInt}
 	}
 	panic(vcErr("unknown spec type %q", ty))
+}
+
+// specMeasureParam: index of the int parameter that decreases by one in the
+// recursive call (the recursion measure), or -1.
+func specMeasureParam(sp *SpecFunc) int {
+	res := -1
+	ast.Inspect(sp.Body, func(n ast.Node) bool {
+		ce, ok := n.(*ast.CallExpr)
+		if !ok {
+			return true
+		}
+		id, ok := ce.Fun.(*ast.Ident)
+		if !ok || id.Name != sp.Name || len(ce.Args) != len(sp.Params) {
+			return true
+		}
+		for j, a := range ce.Args {
+			be, ok := a.(*ast.BinaryExpr)
+			if !ok || be.Op != token.SUB {
+				continue
+			}
+			x, ok1 := be.X.(*ast.Ident)
+			y, ok2 := be.Y.(*ast.BasicLit)
+			if ok1 && ok2 && x.Name == sp.Params[j][0] && y.Value == "1" && sp.Params[j][1] == "int" {
+				res = j
+			}
+		}
+		return true
+	})
+	return res
 }
 
 func specIsRecursive(sp *SpecFunc) bool {
@@ -584,13 +701,27 @@ func (c *Ctx) applySpecFunc(env *Env, sp *SpecFunc, args []Val) Val {
 			norm[i] = args[i]
 		}
 	}
-	if sp.Body != nil && !specIsRecursive(sp) {
+	if sp.Body != nil && !specIsRecursive(sp) && !sp.Opaque {
 		// macro expansion
 		n := &Env{c: c, st: env.st, old: env.old, names: map[string]Val{}}
 		for i, p := range sp.Params {
 			n.names[p[0]] = norm[i]
 		}
 		return c.eval(n, sp.Body)
+	}
+	// bounded unfolding: a recursive spec function applied to a small literal
+	// measure (e.g. idot over an index vector of length 2) is expanded in place
+	if j := specMeasureParam(sp); j >= 0 && !sp.Opaque {
+		if t, ok := norm[j].(T); ok && isIntNumeral(t.S) && numeralVal(t.S) <= 6 && c.unfoldDepth < 8 {
+			c.unfoldDepth++
+			n := &Env{c: c, st: env.st, old: env.old, names: map[string]Val{}}
+			for i, p := range sp.Params {
+				n.names[p[0]] = norm[i]
+			}
+			r := c.eval(n, sp.Body)
+			c.unfoldDepth--
+			return r
+		}
 	}
 	c.declareSpec(sp)
 	var ts []T
@@ -599,7 +730,7 @@ func (c *Ctx) applySpecFunc(env *Env, sp *SpecFunc, args []Val) Val {
 		case T:
 			ts = append(ts, v)
 		case SeqV:
-			ts = append(ts, v.Arr, v.Off, v.Len)
+			ts = append(ts, v.Arr, v.Off)
 		default:
 			panic(vcErr("spec %s: argument of kind %T", sp.Name, a))
 		}
@@ -635,10 +766,9 @@ func (c *Ctx) declareSpec(sp *SpecFunc) {
 		} else {
 			a := T{"a_" + p[0], ss[0]}
 			o := T{"o_" + p[0], SInt}
-			l := T{"l_" + p[0], SInt}
-			binders = append(binders, fmt.Sprintf("(%s %s)", a.S, ss[0]), fmt.Sprintf("(%s Int)", o.S), fmt.Sprintf("(%s Int)", l.S))
-			argTerms = append(argTerms, a, o, l)
-			n.names[p[0]] = SeqV{a, o, l}
+			binders = append(binders, fmt.Sprintf("(%s %s)", a.S, ss[0]), fmt.Sprintf("(%s Int)", o.S))
+			argTerms = append(argTerms, a, o)
+			n.names[p[0]] = SeqV{a, o, intLit(0)} // len() of a sequence parameter is not available in spec bodies
 		}
 	}
 	c.inQuant++
